@@ -91,3 +91,132 @@ INTERP_EXT = {
     'rowg': _rowg, 'colg': _colg, 'krrows': _krrows, 'vecC': lambda x: x.reshape(-1, 1).copy(), 'unvecC': _unvecC, 'dg': _dg,
     'cputsl': _cputsl,
 }
+
+
+# ---- slice coverage (group 'cover'): integer vectors are dicts position -> value
+import z3
+from ttvc import theory as T
+from ttvc import mx_als as X
+
+
+def _vals(v, m):
+    m = int(m)
+    _need(0 <= m <= 8, 'vector length')
+    return [int(v[t]) for t in range(m)]
+
+
+def _occ(v, m, j):
+    vals = _vals(v, m)
+    return vals.index(int(j)) if int(j) in vals else -1
+
+
+def _miss(v, m, n):
+    vals = set(_vals(v, m))
+    for j in range(max(int(n), 0)):
+        if j not in vals:
+            return j
+    return -1
+
+
+INTERP_EXT.update({
+    'ndist': lambda v, m: len(set(_vals(v, m))),
+    'covers': lambda v, m, n: set(range(max(int(n), 0))) <= set(_vals(v, m)),
+    'inrng': lambda v, m, n: all(0 <= x < int(n) for x in _vals(v, m)),
+    'occ': _occ, 'miss': _miss,
+})
+
+
+def _wrap(mod):
+    """Richer integer vectors while the axioms of group 'cover' are sampled (the stock sampler returns the zero vector)."""
+    if getattr(mod.check_axiom, '_mx_als', False):
+        return
+    orig_check, orig_sample = mod.check_axiom, mod.sample
+    mine = {ax.get_id() for ax in T.GROUPS.get('cover', [])}
+    state = {'rich': False}
+
+    def check_axiom(ax, rng, tries=400):
+        state['rich'] = ax.get_id() in mine
+        try:
+            return orig_check(ax, rng, tries)
+        finally:
+            state['rich'] = False
+
+    def sample(sort, rng):
+        if state['rich'] and sort == X.IA:
+            hi = int(rng.integers(1, 4))
+            return {k: int(rng.integers(0, hi)) for k in range(8)}
+        return orig_sample(sort, rng)
+
+    check_axiom._mx_als = True
+    mod.check_axiom, mod.sample = check_axiom, sample
+
+
+for _m in _sc():
+    _wrap(_m)
+
+
+# ---- als_func (groups 'als3', 'kr3vec')
+def _unvec3(v, a, b, c):
+    a, b, c = int(a), int(b), int(c)
+    _need(a >= 1 and b >= 1 and c >= 1 and v.shape == (a * b * c, 1), 'unvec3 size')
+    return v.reshape(a, b, c)
+
+
+def _cadd(g, h):
+    _need(g.shape == h.shape, 'cadd of different shapes')
+    return g + h
+
+
+def _ctrunc(g, n):
+    n = int(n)
+    _need(0 <= n <= g.shape[1], 'ctrunc out of range')
+    return g[:, :n, :]
+
+
+def _cpre(g, h):
+    _need(h.shape[0] == g.shape[0] and h.shape[2] == g.shape[2] and h.shape[1] <= g.shape[1], 'cpre of incompatible cores')
+    out = g.copy()
+    out[:, :h.shape[1], :] = h
+    return out
+
+
+def _fpred(p, h, g, r):
+    _need(p.shape[0] == h.shape[0] == r.shape[0] and (p.shape[1], h.shape[1], r.shape[1]) == g.shape, 'fpred of incompatible factors')
+    return np.einsum('ik,ij,kjl,il->i', p, h, g, r).reshape(-1, 1)
+
+
+INTERP_EXT.update({
+    'vec3': lambda g: g.reshape(-1, 1).copy(), 'unvec3': _unvec3, 'cadd': _cadd, 'ctrunc': _ctrunc, 'cpre': _cpre,
+    'maxabsC': lambda g: float(np.abs(g).max()), 'maxabsM': lambda a: float(np.abs(a).max()), 'fpred': _fpred,
+})
+
+
+def _wrap3(mod):
+    """Small coordinated shapes while the layout axiom 'kr3vec' is sampled (four shape equations have to hold at once)."""
+    if getattr(mod.check_axiom, '_mx_als3', False):
+        return
+    orig_check, orig_sample = mod.check_axiom, mod.sample
+    mine = {ax.get_id() for ax in T.GROUPS.get('kr3vec', [])}
+    state = {'rich': False}
+
+    def check_axiom(ax, rng, tries=400):
+        state['rich'] = ax.get_id() in mine
+        try:
+            return orig_check(ax, rng, tries)
+        finally:
+            state['rich'] = False
+
+    def sample(sort, rng):
+        if state['rich'] and sort == T.Mat:
+            return rng.integers(-3, 4, size=(2, int(rng.integers(1, 3)))).astype(float)
+        if state['rich'] and sort == T.Core:
+            return rng.integers(-3, 4, size=tuple(int(x) for x in rng.integers(1, 3, size=3))).astype(float)
+        return orig_sample(sort, rng)
+
+    check_axiom._mx_als3 = True
+    check_axiom._mx_als = getattr(orig_check, '_mx_als', False)
+    mod.check_axiom, mod.sample = check_axiom, sample
+
+
+for _m in _sc():
+    _wrap3(_m)
